@@ -262,6 +262,9 @@ def describe_experiment(rec):
         return rec[:300]
     if e.get("k") == "sb":
         return "store-buffering litmus with %s between store and load: outcome r1=r2=0 observed %d times in %d iterations (impl %s)" % (e["op"], e["n00"], e["iters"], e["impl"])
+    if e.get("k") == "cb":
+        return ("compiler-barrier litmus: a plain counter polled under a lock built from %s alone %s (final %s, expected %s, impl %s): the operation does "
+                "not order the caller's plain accesses" % (e["op"], "was seen to complete" if e.get("done") else "never showed its final value to the poller", e.get("final"), e.get("expect"), e["impl"]))
     s = "%s experiment, op=%s, width %d, %d threads x %d operations per location (impl %s):" % (e.get("k"), e.get("op"), e.get("w"), e["locs"][0]["n"] if e.get("locs") else 0, e.get("iters"), e.get("impl"))
     for L in e.get("locs", []):
         s += " [off=%d init=%s d=%s final=%s" % (L["off"], L["init"], L["d"], L["final"])
@@ -279,6 +282,14 @@ def hammer(ctx, exes, seed, scale):
         rc, so, se = run_driver(exe, ["hammer", seed, lp, scale], timeout=900)
         if rc != 0:
             raise RuntimeError("hammer %s failed rc=%s: %s %s" % (name, rc, so[-500:], se[-500:]))
+        # compiler-barrier litmus of the same implementation in an -O2 build (only an optimising compiler moves plain accesses); its
+        # records are appended to the hammer log and judged by the same TLC predicate
+        impl = name.split("-")[0]
+        defs = dict(IMPLS).get(impl)
+        if defs is not None:
+            rc, so, se = run_driver(build(impl, defs, "-O2"), ["cb", lp], timeout=300)
+            if rc != 0:
+                raise RuntimeError("compiler-barrier litmus %s failed rc=%s: %s %s" % (name, rc, so[-500:], se[-500:]))
         runs.append((name, lp))
     with cf.ThreadPoolExecutor(max_workers=3) as ex:
         vals = list(ex.map(lambda x: tlc_validate("UatomicHammer", "Explainable", x[1], "hv_" + x[0].replace("-", ""), workers=4, heap="4g"), runs))
